@@ -103,6 +103,7 @@ def check(chk):
     _grow(chk, persistent)
     _rbw(chk, persistent)
     _isolate(chk)
+    _alias(chk)
     _borrowed(chk)
     _refit_borrowed(chk)
     _defaults(chk)
@@ -500,6 +501,34 @@ def _borrowed(chk):
             chk.check(src is None, "OWN.borrowed.mutate", fn, st,
                       why=f"{src} is modified in place: fitting must not change the user's objects or another model's results")
     chk.info["ownership_sinks_examined"] = n
+
+
+def _alias(chk):
+    """two attributes of one object must not be bound to the same mutable container (a = b = {}): writing
+    the bookkeeping of one role (transform) would change the other (fit)"""
+    pm = chk.pm
+    n = 0
+    for fn in pm.all_functions():
+        if fn.cls is None:
+            continue
+        mutable_attrs = set()
+        for st in walk_no_nested(fn.node):
+            if isinstance(st, ast.Assign) and isinstance(st.value, (ast.Dict, ast.List, ast.Set, ast.DictComp, ast.ListComp)) or (
+                    isinstance(st, ast.Assign) and isinstance(st.value, ast.Call) and isinstance(st.value.func, ast.Name) and st.value.func.id in ("dict", "list", "set")):
+                selfs = [t for t in st.targets if is_self_attr(t)]
+                n += 1
+                if len(selfs) >= 2:
+                    chk.violation("HIST.alias", fn, st,
+                                  why=f"{[norm(t) for t in selfs]} are bound to one and the same mutable object: what transform records in one of them "
+                                      "overwrites what fit remembered in the other")
+                else:
+                    for t in selfs:
+                        mutable_attrs.add(t.attr)
+        for st in walk_no_nested(fn.node):
+            if isinstance(st, ast.Assign) and len(st.targets) == 1 and is_self_attr(st.targets[0]) and is_self_attr(st.value) \
+                    and st.value.attr in mutable_attrs and st.value.attr != st.targets[0].attr:
+                chk.violation("HIST.alias", fn, st, why=f"self.{st.targets[0].attr} aliases the mutable container self.{st.value.attr}")
+    chk.ok("HIST.alias", "xeofs", None, construct=f"<{n} mutable container initialisations examined>", nontrivial=False)
 
 
 def _refit_borrowed(chk):
